@@ -3,6 +3,7 @@ CONSTANTS
   MaxCommits = 4
   MaxPersists = 4
   MaxClock = 3
+  DevSearchLo = FALSE
   DevNoEmptyCheck = FALSE
 INVARIANTS TypeOK CleanReopenExact OpenRefusedUnlessMarked RepairYieldsLatestDurable NothingUncommitted AsofMonotone StepsInOrder SearchCorrect
 CHECK_DEADLOCK FALSE
